@@ -401,9 +401,28 @@ def det_exact(a):
     return tot
 
 
+def _stacked(a, fn, what):
+    """numpy's linalg routines accept a stack of matrices (..., M, N) and work on the last two axes: apply a scalar-valued
+    handler per matrix and stack the results; for the kernels without a per-matrix form a stack is not modelled (SymError =>
+    inconclusive, never a silently wrong model)"""
+    a = sarr(a)
+    if a.ndim <= 2:
+        return None
+    if fn is None:
+        raise SymError(f"{what} on a stack of matrices (ndim {a.ndim}) is not modelled")
+    lead = a.shape[:-2]
+    out = np.empty(lead, dtype=object)
+    for idx in np.ndindex(*lead):
+        out[idx] = fn(np.asarray(a)[idx].view(SymArray))
+    return out.view(SymArray)
+
+
 @handles(np.linalg.det)
 def h_det(a):
     a = sarr(a)
+    st = _stacked(a, h_det, "det")
+    if st is not None:
+        return st
     if a.shape[0] <= 4:
         return det_exact(a)
     return kernel("det", [a], [((), "c")], concrete=np.linalg.det)[0]
@@ -412,6 +431,7 @@ def h_det(a):
 @handles(np.linalg.eigvalsh)
 def h_eigvalsh(a, UPLO="L"):
     a = sarr(a)
+    _stacked(a, None, "eigvalsh")
     n = a.shape[0]
     return kernel("eigvalsh", [a], [((n,), "r")], concrete=np.linalg.eigvalsh)[0]
 
@@ -428,6 +448,7 @@ def want_contract(name):
 
 @handles(np.linalg.eigh)
 def h_eigh(a, UPLO="L"):
+    _stacked(a, None, "eigh")
     a = sarr(a)
     n = a.shape[0]
     w = h_eigvalsh(a)
@@ -463,6 +484,7 @@ class _EighResult(tuple):
 
 @handles(np.linalg.eigvals)
 def h_eigvals(a):
+    _stacked(a, None, "eigvals")
     a = sarr(a)
     n = a.shape[0]
     return kernel("eigvals", [a], [((n,), "c")], concrete=np.linalg.eigvals)[0]
@@ -470,6 +492,7 @@ def h_eigvals(a):
 
 @handles(np.linalg.eig)
 def h_eig(a):
+    _stacked(a, None, "eig")
     a = sarr(a)
     n = a.shape[0]
     w = h_eigvals(a)
@@ -479,6 +502,7 @@ def h_eig(a):
 
 @handles(np.linalg.svd)
 def h_svd(a, full_matrices=True, compute_uv=True, hermitian=False):
+    _stacked(a, None, "svd")
     a = sarr(a)
     m, n = a.shape
     k = min(m, n)
@@ -508,6 +532,9 @@ def h_rank(a, tol=None, hermitian=False, **k):
     a = sarr(a)
     if a.ndim < 2:
         return lift(Or(*[lift(v) != 0 for v in a.flat]))
+    st = _stacked(a, lambda m: h_rank(m, tol=tol, hermitian=hermitian, **k), "matrix_rank")
+    if st is not None:
+        return st
     return kernel("matrix_rank", [a], [((), "r")], extra=(repr(tol), bool(hermitian), tuple(sorted(k.items()))),
                   concrete=lambda x: np.linalg.matrix_rank(x, tol=tol, hermitian=hermitian, **k))[0]
 
@@ -529,11 +556,23 @@ def h_norm(x, ord=None, axis=None, keepdims=False):
         return tot
     if x.ndim == 1 and ord == np.inf:
         return symmax([abs(v) for v in lifted(x).flat])
+    if x.ndim == 2 and ord in ("nuc", 2) and min(x.shape) >= 1:
+        # nuclear / spectral norm = sum / largest of the singular values: written over the SAME kernel np.linalg.svd uses, so that
+        # code summing svd(M, compute_uv=False) itself and code calling norm(M, "nuc") are the same term for the solver
+        sv = kernel("svd_s", [x], [((min(x.shape),), "r")], concrete=lambda m: np.linalg.svd(m, compute_uv=False))[0]
+        sv = list(np.asarray(sv, dtype=object).flat)
+        if ord == 2:
+            return symmax(sv) if len(sv) > 1 else sv[0]
+        tot = lift(0)
+        for v in sv:
+            tot = tot + v
+        return tot
     return kernel(f"norm_{ord}", [x], [((), "r")], concrete=lambda m: np.linalg.norm(m, ord=ord))[0]
 
 
 @handles(np.linalg.inv)
 def h_inv(a):
+    _stacked(a, None, "inv")
     a = sarr(a)
     n = a.shape[0]
     return kernel("inv", [a], [((n, n), "c")], concrete=np.linalg.inv)[0]
@@ -541,6 +580,7 @@ def h_inv(a):
 
 @handles(np.linalg.qr)
 def h_qr(a, mode="reduced"):
+    _stacked(a, None, "qr")
     a = sarr(a)
     m, n = a.shape
     k = min(m, n)
@@ -551,6 +591,7 @@ def h_qr(a, mode="reduced"):
 
 @handles(np.linalg.cholesky)
 def h_cholesky(a, **k):
+    _stacked(a, None, "cholesky")
     a = sarr(a)
     n = a.shape[0]
     return kernel("cholesky", [a], [((n, n), "c")], concrete=np.linalg.cholesky)[0]
@@ -619,9 +660,22 @@ def _wrap(f):
     def w(*args, **kwargs):
         args = review_args(args)
         h = HANDLERS.get(f)
-        if h is not None and (any(has_sym(a) for a in args) or any(has_sym(v) for v in kwargs.values())):
+        symbolic = any(has_sym(a) for a in args) or any(has_sym(v) for v in kwargs.values())
+        if h is not None and symbolic:
             return review(h(*args, **kwargs))
-        return review(f(*args, **kwargs))
+        if symbolic and getattr(f, "__name__", "") in ("isfinite", "isnan", "isinf"):
+            # solver terms are real numbers: always finite
+            const = getattr(f, "__name__") == "isfinite"
+            a0 = args[0]
+            return np.full(np.shape(a0), const, dtype=bool) if np.ndim(a0) else const
+        try:
+            return review(f(*args, **kwargs))
+        except TypeError as e:
+            # a numpy routine without an object-dtype loop: the model does not cover this operation - not a result of the code
+            if symbolic and ("not supported for the input types" in str(e) or "object arrays are not supported" in str(e)
+                             or "ufunc" in str(e) and "object" in str(e)):
+                raise SymError(f"numpy.{getattr(f, '__name__', f)} has no object-dtype implementation: {e}") from e
+            raise
     w.__name__ = getattr(f, "__name__", "wrapped")
     w.__wrapped__ = f
     return w
@@ -648,6 +702,9 @@ def _mk_asarray(obj, dtype=None, *a, **k):
 
 def _obj_filled(val):
     def f(shape, dtype=None, *a, **k):
+        if dtype is not None and np.dtype(dtype).kind in "iub":
+            # integer / boolean buffers (index tables, digit arrays, masks) hold concrete values: numpy's own array
+            return (np.zeros if val == 0 else np.ones)(shape, dtype, *a, **k)
         if isinstance(shape, (int, np.integer)):
             shape = (int(shape),)
         shape = tuple(int(s) for s in shape)
